@@ -1,8 +1,52 @@
 package sim
 
-func init() { generators["C17"] = genC17 }
+import "fmt"
+
+func init() {
+	generators["C17"] = genC17
+	generators["C17-concurrent"] = genC17Concurrent // the free-running race passes of C17 and C18
+}
+
+// genC17Concurrent: one handler, several connections: clients of a stream listener (each served
+// by a goroutine of its own) authenticate at the same instants with credentials of their own.
+func genC17Concurrent(p *Plan, r *RNG) {
+	baseSrvConfig(p, r)
+	p.Flavor = "cred-e2e-concurrent"
+	p.Cfg.Listener = "tcp"
+	p.Cfg.Auth = r.Pick([]string{"ltcred", "turnrest"})
+	p.Cfg.Secret = "shared-secret"
+	p.Cfg.Extra = map[string]int64{"cred_dur_s": 3600, "cred_forge": 0}
+	n := r.Range(2, 4)
+	for i := 0; i < n; i++ {
+		p.Clients = append(p.Clients, ClientSpec{ID: fmt.Sprintf("c%d", i+1), Addr: fmt.Sprintf("10.0.1.%d:%d", 1+i, 4000+i*13), User: "@gen", Pass: "", Kind: "real"})
+	}
+	p.Peers = []PeerSpec{{ID: "p1", Addr: "10.0.2.1:5000"}, {ID: "p2", Addr: "10.0.2.2:5017"}}
+	for i := 0; i < n; i++ {
+		g := gap(0)
+		if i == 0 {
+			g = gap(sec)
+		}
+		p.Ops = append(p.Ops, Op{Actor: p.Clients[i].ID, Kind: "alloc", At: g})
+	}
+	p.Ops = append(p.Ops, Op{Kind: "wait", At: gap(2 * sec)})
+	for k := r.Range(2, 5); k > 0; k-- {
+		for i := 0; i < n; i++ {
+			g := gap(0)
+			if i == 0 {
+				g = gap(int64(r.Range(100, 900)) * ms)
+			}
+			p.Ops = append(p.Ops, Op{Actor: p.Clients[i].ID, Kind: "writeto", At: g, A: OpArgs{Peer: p.Peers[k%2].Addr, Len: 20 + k}})
+		}
+	}
+	p.Ops = append(p.Ops, Op{Kind: "wait", At: gap(3 * sec)})
+	p.QuietNS = 5 * sec
+}
 
 func genC17(p *Plan, r *RNG) {
+	if r.Chance(1, 40) {
+		genC17Concurrent(p, r)
+		return
+	}
 	if r.Chance(1, 4) {
 		genC17E2E(p, r)
 		return
